@@ -127,8 +127,38 @@ func bitXor(a, b Bit) Bit {
 		return bitNot(a)
 	case !a.Top && a.Equal(b):
 		return bitConst(0)
+	case !a.Top && !b.Top && len(a.Set) == 1 && len(b.Set) == 1 && !strings.Contains(a.Set[0], "^") && !strings.Contains(b.Set[0], "^"):
+		// the difference of two input bits is an atom of its own: "x^y" (names ordered); OR-sets of such
+		// atoms express "the two words differ somewhere"
+		k1, k2 := a.Set[0], b.Set[0]
+		if k2 < k1 {
+			k1, k2 = k2, k1
+		}
+		return Bit{Const: -1, Neg: a.Neg != b.Neg, Set: []string{k1 + "^" + k2}}
 	}
 	return bitTop()
+}
+
+// XorAtom names the difference of two input bits as bitXor does.
+func XorAtom(k1, k2 string) string {
+	if k2 < k1 {
+		k1, k2 = k2, k1
+	}
+	return k1 + "^" + k2
+}
+
+// eqWords: 1 iff the two words agree in every bit: ¬OR_i (x_i ⊕ y_i), as a w-bit word.
+func eqWords(xs, ys []Bit, w int) *BV {
+	acc := bitConst(0)
+	for i := range xs {
+		acc = bitOr(acc, bitXor(xs[i], ys[i]))
+	}
+	r := &BV{Bits: make([]Bit, w)}
+	r.Bits[0] = bitNot(acc)
+	for i := 1; i < w; i++ {
+		r.Bits[i] = bitConst(0)
+	}
+	return r
 }
 
 // BV is a bit vector of a fixed width (least significant bit first).
@@ -613,6 +643,29 @@ func (d *BitDom) Call(in *Interp, site ssa.Instruction, fn *ssa.Function, args [
 		if h, ok := d.Prims[name]; ok {
 			return h(in, site, args), true
 		}
+		xs, ys := in.SliceElems(site, args[0]), in.SliceElems(site, args[1])
+		if len(xs) != len(ys) {
+			return []Val{MkInt(0)}, true
+		}
+		var xb, yb []Bit
+		for i := range xs {
+			a, b := d.lift(in, xs[i], u8), d.lift(in, ys[i], u8)
+			if a == nil || b == nil {
+				in.Undecided(site, "ConstantTimeCompare of %T and %T", xs[i], ys[i])
+			}
+			xb, yb = append(xb, a.Bits...), append(yb, b.Bits...)
+		}
+		return []Val{d.out(eqWords(xb, yb, 64))}, true
+	case "crypto/subtle.ConstantTimeEq", "crypto/subtle.ConstantTimeByteEq":
+		t := types.Type(types.Typ[types.Int32])
+		if name == "crypto/subtle.ConstantTimeByteEq" {
+			t = u8
+		}
+		a, b := d.lift(in, args[0], t), d.lift(in, args[1], t)
+		if a == nil || b == nil {
+			in.Undecided(site, "%s of %T and %T", name, args[0], args[1])
+		}
+		return []Val{d.out(eqWords(a.Bits, b.Bits, 64))}, true
 	}
 	return nil, false
 }
